@@ -187,6 +187,9 @@ pub fn plan(prop: &str, tier: Tier) -> Option<Plan> {
                 job(eng::c16::C16Engine { fixed_grid: true }, 0, "nostd"),
                 job(eng::c16::C16Engine { fixed_grid: false }, if q { 320 } else { 16_000 }, "all"),
                 job(eng::c16::C16Engine { fixed_grid: false }, if q { 320 } else { 16_000 }, "nostd"),
+                // the same grid with a 32-bit usize (Miri for i686 as the execution vehicle; skipped when unavailable)
+                job(eng::c16::C16M32Engine { fixed_grid: true }, 0, "all"),
+                job(eng::c16::C16M32Engine { fixed_grid: false }, if q { 64 } else { 4_000 }, "all"),
             ],
         ),
         "C14" => (
